@@ -5,6 +5,7 @@ package main
 
 import (
 	"fmt"
+	"go/types"
 	"os"
 	"path/filepath"
 	"runtime/debug"
@@ -40,6 +41,8 @@ type Engine struct {
 	loadTime   time.Duration
 	overlay    map[string][]byte
 	bounds     map[string]int
+	intrByFn   map[*ssa.Function]intrinsicFn
+	intrMu     sync.RWMutex
 }
 
 // overlayFiles maps every file under overlayDir to the same relative path in /repo.
@@ -102,6 +105,7 @@ func NewEngine(patterns []string) (*Engine, error) {
 		workers:    16,
 		openKF:     map[string]bool{},
 		overlay:    ov,
+		intrByFn:   map[*ssa.Function]intrinsicFn{},
 	}
 	for _, p := range prog.AllPackages() {
 		e.pkgs[p.Pkg.Path()] = p
@@ -165,6 +169,8 @@ type ExploreOpts struct {
 	MaxViolationsPerLabel int
 	Vector                []VecEntry // concrete mode: run exactly this vector
 	SchedChoice           bool
+	snap                  **Snapshot
+	snapOnly              bool
 }
 
 type workItem struct{ prefix []int64 }
@@ -187,6 +193,27 @@ func (e *Engine) Explore(h *ssa.Function, opts ExploreOpts) *HarnessResult {
 	if opts.Vector != nil {
 		nw = 1
 	}
+	// run the package initialisers once; every path starts from a clone
+	if os.Getenv("VERIF_NO_SNAPSHOT") == "" {
+		var snap *Snapshot
+		opts.snap = &snap
+		solver, err := NewSolver()
+		if err != nil {
+			panic(err)
+		}
+		solver.ctx = NewCtx()
+		wk := &Worker{solver: solver, ctx: solver.ctx, regPool: map[int][][]Value{}, funcs: map[*ssa.Function]bool{}, intr: map[string]bool{}}
+		pr := e.runPath(h, nil, wk, opts)
+		solver.Close()
+		if snap == nil {
+			opts.snap = nil
+			if pr.Inconclusive != "" {
+				hr.Inconclusive[pr.Inconclusive]++
+				hr.Wall = time.Since(start)
+				return hr
+			}
+		}
+	}
 	var wg sync.WaitGroup
 	for w := 0; w < nw; w++ {
 		wg.Add(1)
@@ -197,6 +224,8 @@ func (e *Engine) Explore(h *ssa.Function, opts ExploreOpts) *HarnessResult {
 				panic(err)
 			}
 			defer solver.Close()
+			solver.ctx = NewCtx()
+			wk := &Worker{solver: solver, ctx: solver.ctx, regPool: map[int][][]Value{}, funcs: map[*ssa.Function]bool{}, intr: map[string]bool{}}
 			for {
 				mu.Lock()
 				for len(stack) == 0 && active > 0 && !stop {
@@ -212,7 +241,7 @@ func (e *Engine) Explore(h *ssa.Function, opts ExploreOpts) *HarnessResult {
 				active++
 				mu.Unlock()
 
-				pr := e.runPath(h, it.prefix, solver, opts)
+				pr := e.runPath(h, it.prefix, wk, opts)
 
 				mu.Lock()
 				active--
@@ -270,6 +299,12 @@ func (e *Engine) Explore(h *ssa.Function, opts ExploreOpts) *HarnessResult {
 				cond.Broadcast()
 			}
 			mu.Lock()
+			for f := range wk.funcs {
+				hr.Funcs[getFnInfo(f).name] = true
+			}
+			for f := range wk.intr {
+				hr.Intrinsics[f] = true
+			}
 			hr.Solver.Queries += solver.Stats.Queries
 			hr.Solver.Time += solver.Stats.Time
 			hr.Solver.Fallbacks += solver.Stats.Fallbacks
@@ -287,16 +322,19 @@ func (e *Engine) Explore(h *ssa.Function, opts ExploreOpts) *HarnessResult {
 }
 
 // runPath executes the harness once along the given decision prefix.
-func (e *Engine) runPath(h *ssa.Function, prefix []int64, solver *Solver, opts ExploreOpts) (pr *PathResult) {
+func (e *Engine) runPath(h *ssa.Function, prefix []int64, wk *Worker, opts ExploreOpts) (pr *PathResult) {
+	solver := wk.solver
+	wk.gen++
 	pr = &PathResult{Prefix: prefix, Reached: map[string][]VecEntry{}, AssertsOK: map[string]int{}, Funcs: map[string]bool{}, Intrinsics: map[string]bool{}}
 	r := &Run{
-		eng: e, ctx: NewCtx(), solver: solver,
+		eng: e, ctx: solver.ctx, solver: solver, wk: wk,
 		prefix:  append([]int64(nil), prefix...),
 		globals: map[*ssa.Global]*Object{},
 		maxStep: e.maxStep, res: pr, openKF: e.openKF,
-		hashers: map[*Object]*hasherState{}, bigLens: map[int]int{}, nonNeg: map[int]bool{},
+		hashers: map[*Object]*hasherState{}, bigLens: map[int]int{}, nonNeg: map[int]bool{}, zeroCache: map[types.Type]Value{},
 		harness: h.Name(), vector: opts.Vector, schedChoice: opts.SchedChoice,
 	}
+	solver.ctx.Reset()
 	solver.BeginPath()
 	defer solver.EndPath()
 	defer func() {
@@ -327,16 +365,33 @@ func (e *Engine) runPath(h *ssa.Function, prefix []int64, solver *Solver, opts E
 	}()
 	main := r.newGoroutine("main")
 	r.cur = main
-	// package initialisers (concrete)
-	r.inInit = true
-	if init := h.Pkg.Func("init"); init != nil {
-		r.invoke(main, &FuncV{fn: init}, nil, nil)
-		r.runMain(main)
-		if main.panic != nil {
-			panic(engineErr("package initialisation panicked: %s\n%s", main.panic.p.msg, main.panic.stack))
+	// package initialisers (concrete): executed once per exploration, then cloned
+	if snap := opts.snap; snap != nil && *snap != nil {
+		r.restore(*snap)
+	} else {
+		r.inInit = true
+		if init := h.Pkg.Func("init"); init != nil {
+			r.invoke(main, &FuncV{fn: init}, nil, nil)
+			r.runMain(main)
+			if main.panic != nil {
+				panic(engineErr("package initialisation panicked: %s\n%s", main.panic.p.msg, main.panic.stack))
+			}
+		}
+		r.inInit = false
+		if os.Getenv("VERIF_DEBUG") == "2" {
+			fmt.Fprintf(os.Stderr, "init steps: %d\n", r.steps)
+		}
+		if opts.snap != nil && len(r.sigs) == 0 && len(r.hashes) == 0 {
+			if sn := r.takeSnapshot(); sn != nil {
+				*opts.snap = sn
+				opts.snapOnly = true
+			}
 		}
 	}
-	r.inInit = false
+	if opts.snapOnly {
+		pr.Outcome = "snapshot"
+		return pr
+	}
 	main.finished = false
 	r.steps = 0
 	r.invoke(main, &FuncV{fn: h}, nil, nil)
